@@ -80,6 +80,8 @@ fn base_tables() -> Vec<SafetyDesc> {
     ]
 }
 
+/// Pair classes for which the oracle found a colliding pair somewhere in the run (coverage of the lattice, not of the code).
+static CLASSES_HIT: std::sync::Mutex<BTreeSet<&'static str>> = std::sync::Mutex::new(BTreeSet::new());
 static THOROUGH: std::sync::atomic::AtomicBool = std::sync::atomic::AtomicBool::new(false);
 fn thorough_tier() -> bool {
     THOROUGH.load(std::sync::atomic::Ordering::Relaxed)
@@ -191,6 +193,11 @@ pub fn eval_prepared(cfg: &Config, prep: &mut Prepared, body_table: &SafetyDesc,
     let dist = &prep.dist;
     let judged_table = near_table.unwrap_or(body_table);
     let (hit, boundary) = pairs_ref(dist, judged_table);
+    if let Ok(mut seen) = CLASSES_HIT.lock() {
+        for p in &hit {
+            seen.insert(pair_class(*p));
+        }
+    }
     let never_tag = |t: &SafetyDesc| {
         t.special
             .iter()
@@ -474,7 +481,11 @@ fn rx160_phase(rep: &mut Report, thorough: bool) {
 pub fn run(ctx: &Ctx) -> Report {
     let thorough = !ctx.quick();
     THOROUGH.store(thorough, std::sync::atomic::Ordering::Relaxed);
-    let qs = postures(thorough);
+    let mut qs = postures(thorough);
+    // wrist folded back so far that the tool comes within the safety distance of the forearm (the tool-vs-link pairs are
+    // hit in no posture of the product lattice); these always take part in the exemption sweeps
+    let n_product = qs.len();
+    qs.extend([[0.0, 0.0, 0.0, 0.0, 2.5, 0.3], [0.8, 1.2, 1.5, 1.0, -2.5, 0.3], [0.0, 0.0, 2.2, 0.0, 2.8, 0.3], [0.0, 1.2, 2.6, 1.0, 2.5, 0.3], [0.8, 0.0, 1.5, 0.0, -2.8, 0.3]]);
     let presence = [(true, true, false), (true, false, false), (false, true, false), (false, false, false), (true, true, true)];
     let sizes = [presence.len(), N_LAYOUTS, 2, qs.len()];
     let n = par::product(&sizes);
@@ -485,7 +496,7 @@ pub fn run(ctx: &Ctx) -> Report {
         let (tool, base, moved) = presence[ix[0]];
         let cfg = Config { tool, base, moved_base: moved, layout: ix[1], subdiv_variant: ix[2], q: qs[ix[3]] };
         // quick tier: every posture for the richest presence variant, every 4th posture otherwise
-        if !thorough && ix[0] != 0 && (ix[3] + ix[1]) % 4 != 0 {
+        if !thorough && ix[0] != 0 && (ix[3] + ix[1]) % 4 != 0 && ix[3] < n_product {
             return;
         }
         r.states += 1;
@@ -510,7 +521,7 @@ pub fn run(ctx: &Ctx) -> Report {
             }
         }
         // NEVER_COLLIDES on each candidate pair, both key orders, on top of the 5 cm table; and near() with differing tables
-        if ix[3] % 6 == 0 || thorough {
+        if ix[3] % 6 == 0 || thorough || ix[3] >= n_product {
             let dist = prep.dist.clone();
             let t2 = &tables[2];
             let (hit, _) = pairs_ref(&dist, t2);
@@ -537,6 +548,30 @@ pub fn run(ctx: &Ctx) -> Report {
                     }
                 }
             }
+            // "... and only those pairs": an exemption on a *sibling* pair (one body in common with a colliding pair) must leave
+            // the colliding pair reported. Every named pair sharing a body with a colliding one is exempted in turn
+            // (key order alternating; both orders in the thorough tier)
+            let mut siblings: Vec<(usize, usize)> = Vec::new();
+            for h in hit.iter() {
+                for s in dist.keys() {
+                    let shares = s.0 == h.0 || s.0 == h.1 || s.1 == h.0 || s.1 == h.1;
+                    if shares && !hit.contains(s) && !siblings.contains(s) {
+                        siblings.push(*s);
+                    }
+                }
+            }
+            for (si, p) in siblings.into_iter().enumerate() {
+                for flip in [false, true] {
+                    if !thorough && flip != ((si + ix[3]) % 2 == 1) {
+                        continue;
+                    }
+                    let key = if flip { (p.1, p.0) } else { p };
+                    let mut tn = t2.clone();
+                    tn.special.push((key, NEVER_COLLIDES));
+                    let (f, s) = eval_prepared(&cfg, &mut prep, &tn, None, false);
+                    record(f, format!("sibling-exempt:{s}"), json!({"body_table": tn.json(), "near_table": null, "pools": false}), r);
+                }
+            }
             // near() with plainly different distances
             let (f, s) = eval_prepared(&cfg, &mut prep, &tables[0], Some(&tables[2]), false);
             record(f, s, json!({"body_table": tables[0].json(), "near_table": tables[2].json(), "pools": false}), r);
@@ -545,14 +580,23 @@ pub fn run(ctx: &Ctx) -> Report {
             r.sample(|| cfg.json());
         }
     });
+    {
+        let seen = CLASSES_HIT.lock().map(|s| s.clone()).unwrap_or_default();
+        rep.set("pair_classes_with_an_oracle_hit", json!(seen.iter().collect::<Vec<_>>()));
+        for class in ["link-link", "link-env", "tool-env", "link-base", "tool-base", "link-tool"] {
+            if !seen.contains(class) {
+                rep.machinery_errors.push(format!("no posture of the lattice brings a {class} pair within its safety distance"));
+            }
+        }
+    }
     rx160_phase(&mut rep, thorough);
     validate_oracle(&mut rep);
     audit_sources(&mut rep);
     rep.traces_validated = rep.transitions;
     rep.rule = "synthetic box robot (vertex counts varied by face subdivision) x presence of tool/base (incl. a moved base) x 13 environment layouts (incl. a turned octahedron and a two-piece mesh inside the safety margin) \
                 (none, far, intersecting, gaps 0.4r/0.9r/1.1r, finely/coarsely meshed small body inside the inflated box of a link, enclosing body, near the tool, \
-                several objects) x postures (folded elbow, leaning into base, ...) x safety tables (touch, 2 cm, 5 cm, mixed, per-pair overrides smaller/larger, \
-                NEVER_COLLIDES on each candidate pair in both key orders) x modes x entry points {collision_details, collides, RobotBody::collides, near with a \
+                several objects) x postures (folded elbow, leaning into base, wrist folded back until the tool nears the forearm, ...) x safety tables (touch, 2 cm, 5 cm, mixed, per-pair overrides smaller/larger, \
+                NEVER_COLLIDES on each candidate pair in both key orders, and on every named pair sharing a body with a colliding pair) x modes x entry points {collision_details, collides, RobotBody::collides, near with a \
                 table different from the body's}; oracle PAIRS_ref: all named pairs decided by an own f64 triangle-triangle distance without any pre-filter; \
                 pairs within 1 mm of their limit are not judged; first-collision mode re-run in rayon pools of 1,2,4,8,16 threads, and in pools of every size 1..16 whenever exactly one pair collides; plus the bundled RX160 STL meshes in the cell of the crate's example against parry's exact queries; \
                 signature = (entry, mode, number of oracle pairs)".into();
